@@ -203,8 +203,9 @@ public:
     constexpr range_t& operator-=(const range_t& o)
     {
         assert(!o.empty());
+        const T o_first = o.first();  // o may be this very object: read its lower bound before writing ours
         start -= o.last();
-        finish -= o.first();
+        finish -= o_first;
         return *this;
     }
 
